@@ -198,3 +198,47 @@ func VH_C09_NodeJSONDocs() {
 	}
 	vreach("nodedocs-done")
 }
+
+// C16-D: lists of transactions, both dialects.
+func VH_C16_TxsJSON() {
+	n := vnondetLen("ntx", 0, vparam("NTX", 2))
+	var txs Txs
+	for i := 0; i < n; i++ {
+		txs = append(txs, vjsonTx())
+	}
+	if vnondetBool("node-dialect") {
+		b, err := json.Marshal(txs.NodeJSON())
+		vassert(err == nil, "C16: node JSON of a transaction list marshals")
+		if err != nil {
+			return
+		}
+		var back Txs
+		err = json.Unmarshal(b, back.NodeJSON())
+		vassert(err == nil && len(back) == n, "C16: node JSON of a transaction list unmarshals to as many transactions")
+		if err == nil && len(back) == n {
+			ok := true
+			for i := range txs {
+				ok = vand(ok, vbytesEq(back[i].Bytes(), txs[i].Bytes()))
+			}
+			vassert(ok, "C16: node JSON round trip of a transaction list preserves every serialisation")
+		}
+		vreach("txs-node-done")
+		return
+	}
+	b, err := json.Marshal(txs)
+	vassert(err == nil, "C16: library JSON of a transaction list marshals")
+	if err != nil {
+		return
+	}
+	var back Txs
+	err = json.Unmarshal(b, &back)
+	vassert(err == nil && len(back) == n, "C16: library JSON of a transaction list unmarshals to as many transactions")
+	if err == nil && len(back) == n {
+		ok := true
+		for i := range txs {
+			ok = vand(ok, vbytesEq(back[i].Bytes(), txs[i].Bytes()))
+		}
+		vassert(ok, "C16: library JSON round trip of a transaction list preserves every serialisation")
+	}
+	vreach("txs-lib-done")
+}
